@@ -16,7 +16,7 @@ Crypto.Protocol.SecretSharing:
             every alternative secret s' of Phi the coefficient tape that maps s' onto the same J-shares is
             computed with the reference (linear algebra) and the REAL split run on that tape must reproduce them.
 * field   : _Element laws on Phi (all pairs, all 14^3 triples), all 128 x 128 products of basis monomials and
-            inverses of 400 elements against the reference GF(2^128) (reduction by x^128 + x^7 + x^2 + x + 1).
+            inverses of 435 elements against the reference GF(2^128) (reduction by x^128 + x^7 + x^2 + x + 1).
 """
 import itertools
 import math
@@ -824,7 +824,8 @@ def edge_observations(acc):
         ("_Element(2^128 + 5).encode() (integer beyond 128 bits is neither reduced nor refused)", lambda: E((1 << 128) + 5).encode()),
         ("Shamir.combine([]) (no shares)", lambda: SS.Shamir.combine([])),
         ("Shamir.combine with share index 0", lambda: SS.Shamir.combine([(0, s), (1, s)])),
-        ("Shamir.combine with a share index >= 2^128", lambda: SS.Shamir.combine([(1, s), ((1 << 128) + 1, s)])),
+        ("Shamir.combine with share index 2^128 (not a 128-bit element: neither reduced nor refused)",
+         lambda: SS.Shamir.combine([(1, s), (1 << 128, s)])),
     ]
     for text, fn in obs:
         acc.count("evaluations")
@@ -974,6 +975,8 @@ def run(ctx):
                "tripwired during every split()")
     ctx.assume("outside the domain of the statement and therefore logged only: k < 2, k > n, share index 0 or >= 2^128, empty share "
                "list, _Element ** 0, more than k shares in ssss mode, the value combine() returns for k-1 shares")
+    ctx.assume("repeated indexes: every index list of length 2..6 over the indexes 1..6 with at least one repetition, the repeated "
+               "share once identical and once with a different value, both modes")
     ctx.assume("any exception counts as refusal of a repeated index (ValueError observed); the message tells whether the duplicate "
                "detection or the inversion of zero refused")
 
